@@ -400,6 +400,7 @@ def run(ctx):
     _header_entry(ctx)
     _registered_hash(ctx)
     _frozen_after_recording(ctx)
+    _no_zero_in_lists(ctx)
 
 def _registered_hash(ctx):
     """R11.5: names are made unique through the _wrappers_by_hash registry; the
@@ -636,3 +637,88 @@ def _frozen_after_recording(ctx):
                    "`%s`: %s" % (show(x)[:70], "before the remap is recorded" if ok else "written after make_wrapper_entry() may already have copied it into the database"))
     ctx.floor("R11.6", "external writes of recorded FunctionRemap fields", n, 2)
 
+
+
+ZERO_PUSH_EXEMPT = {
+    # (function, list field): reason - each confirmed by reading
+    ("InterrogateBuilder::define_struct_type", "_constructors"):
+        "implicit constructors: get_function() answers 0 only for a constructor of an abstract class, and these blocks run only where "
+        "is_default_constructible()/is_copy_constructible() held for the complete object, which an abstract class fails (checked: the push is behind that call)",
+}
+
+
+def _no_zero_in_lists(ctx):
+    """R11.7: 0 is "no such entity".  The builder functions that look an entity up or make one (get_type, get_function,
+    scan_element, get_make_property, get_make_seq, ...) answer 0 when they cannot; a caller that appends the answer to one
+    of a type's index lists must test it, or the database lists an entry that does not exist (and the list's count is
+    one too many).  (F-C11b: template nested class, unsuitable MAKE_SEQ / MAKE_PROPERTY getters.)"""
+    db = ctx.db
+    ctx.rule("R11.7", "in the builder, an index obtained from a function that can answer 0 is appended to an index list of an InterrogateType only behind a test that it is not 0")
+    producers = set()
+    for f in db.functions:
+        if not f.name.startswith("InterrogateBuilder::"):
+            continue
+        rt = (f.sig or "").split("(")[0].strip()
+        if not any(rt.endswith(t) or rt == "int" for t in INDEX_TYPES):
+            continue
+        if any(r.get("k") == "ret" and r.get("e") is not None and const_int(r["e"]) == 0 for r in f.walk()):
+            producers.add(f.name)
+    if len(producers) < 4:
+        ctx.broken("R11.7: fewer than 4 builder functions that can answer 0 found (%s)" % sorted(producers))
+    n = 0
+    for f in db.functions:
+        if not f.file.endswith("interrogateBuilder.cxx"):
+            continue
+        # locals holding a producer's answer
+        held = {}
+        for y in f.walk():
+            if y.get("k") == "decls":
+                for d in y["d"]:
+                    init = strip_casts(peel(d.get("init"))) if d.get("init") else None
+                    if init is not None and init.get("k") == "call" and init.get("f") in producers:
+                        held[d["d"]] = (d["n"], callee_short(init))
+            t = assigned_target(y)
+            r = local_ref(t[0]) if t else None
+            v = strip_casts(peel(t[1])) if t else None
+            if r is not None and v is not None and v.get("k") == "call" and v.get("f") in producers:
+                held[r["d"]] = (r.get("n"), callee_short(v))
+        if not held:
+            continue
+        for c in f.walk():
+            if c.get("k") != "call" or callee_short(c) not in ("push_back", "insert", "emplace_back") or "this" not in c or not c.get("a"):
+                continue
+            fld = field_of(strip_casts(peel(c["this"]))) or ""
+            if not fld.startswith("InterrogateType::"):
+                continue
+            arg = local_ref(c["a"][-1])
+            if arg is None or arg.get("d") not in held:
+                continue
+            n += 1
+            name, prod = held[arg["d"]]
+            d = arg["d"]
+
+            def nonzero(atom, truth, d=d):
+                cc = G.cmp_atom(atom)
+                if cc:
+                    op, u, v = cc
+                    if not truth:
+                        op = G.NEG[op]
+                    for p, q in ((u, v), (v, u)):
+                        lr = local_ref(p)
+                        if lr is not None and lr.get("d") == d and q is not None and const_int(q) == 0:
+                            return op in ("!=", ">") if p is u else op in ("!=", "<")
+                    return False
+                lr = local_ref(atom)
+                return lr is not None and lr.get("d") == d and truth
+            edges = G.edges_where(f, nonzero)
+            ok = G.gated(f, c, edges)
+            short = fld.split("::")[-1]
+            inst = "%s|%s.push_back(%s)@%s|from-%s" % (f.name, short, name, f.loc(c).split(":")[-1], prod)
+            if not ok and (f.name, short) in ZERO_PUSH_EXEMPT:
+                e2 = G.edges_where(f, G.pred_true("is_default_constructible", "is_copy_constructible", "is_move_constructible"))
+                if G.gated(f, c, e2):
+                    ctx.ob("R11.7", "%s|%s.push_back(%s)|from-%s|exception" % (f.name, short, name, prod), True, f.loc(c), "reasoned exception: " + ZERO_PUSH_EXEMPT[(f.name, short)])
+                    continue
+            ctx.ob("R11.7", "%s|%s.push_back(%s)|from-%s" % (f.name, short, name, prod), ok, f.loc(c),
+                   "`%s` (answer of %s(), 0 = none) is %stested before it is appended to %s" % (name, prod, "" if ok else "NOT ", short))
+    ctx.floor("R11.7", "appends of looked-up indices to a type's lists", n, 8)
